@@ -590,6 +590,28 @@ func (e *env) pluginOp(w []string) string {
 				h["X-Tag"] = v
 			}
 		}
+		// nil=1: the provider response arrives with a nil header map
+		if nl, ok := proto.KV(w[1:], "nil"); ok {
+			if nl != "1" || len(h) != 0 {
+				return "bad-op"
+			}
+			h = nil
+		}
+		// edit=name:value: after the plugin returned, a later remedy of the chain writes this header into the
+		// transaction's own header map (retry's x-lunar-retry-after, a ModifyResponseAction, ...)
+		var editName, editValue string
+		if ed, ok := kvS(w[1:], "edit"); ok {
+			i := strings.IndexByte(ed, ':')
+			if i <= 0 {
+				return "bad-op"
+			}
+			editName, editValue = ed[:i], ed[i+1:]
+		}
+		defer func() {
+			if editName != "" && h != nil {
+				h[editName] = editValue
+			}
+		}()
 		resp := lunarMessages.OnResponse{ID: id, Method: m, URL: u, Status: int(st), Body: body, Headers: h}
 		var act actions.RespLunarAction
 		var err error
